@@ -97,13 +97,12 @@ def project(v, depth: int = 0):
         return {"k": "sc", "cls": c, "c": "Pattern", "s": esc(v.pattern if isinstance(v.pattern, str) else repr(v.pattern)),
                 "flags": str(int(v.flags))}
     if isinstance(v, datetime.datetime):
-        return {"k": "dt", "cls": c, "s": v.replace(tzinfo=None).isoformat(), "off": _off(v.tzinfo, v),
-                "fold": str(v.fold)}
+        # fold is not part of datetime equality (nor of ISO text): deliberately not projected
+        return {"k": "dt", "cls": c, "s": v.replace(tzinfo=None, fold=0).isoformat(), "off": _off(v.tzinfo, v)}
     if isinstance(v, datetime.date):
         return {"k": "date", "cls": c, "s": v.isoformat()}
     if isinstance(v, datetime.time):
-        return {"k": "time", "cls": c, "s": v.replace(tzinfo=None).isoformat(), "off": _off(v.tzinfo, None),
-                "fold": str(v.fold)}
+        return {"k": "time", "cls": c, "s": v.replace(tzinfo=None, fold=0).isoformat(), "off": _off(v.tzinfo, None)}
     if isinstance(v, datetime.timedelta):
         return {"k": "td", "cls": c, "s": f"{v.days},{v.seconds},{v.microseconds}"}
     if isinstance(v, tuple) and hasattr(cls, "_fields"):
